@@ -64,6 +64,12 @@ const sec = int64(1e9)
 // ---------------------------------------------------------------- generator
 
 func genBoolExpr(t *rapid.T, depth int) *E {
+	if rapid.IntRange(0, 11).Draw(t, "stateful") == 0 {
+		// a stateful function: its state belongs to the group (count() counts the evaluations of
+		// this call site for this group)
+		m := int64(rapid.IntRange(2, 3).Draw(t, "cm"))
+		return &E{K: "bin", N: "==", A: []*E{{K: "bin", N: "%", A: []*E{{K: "call", N: "count"}, {K: "int", I: m}}}, {K: "int", I: int64(rapid.IntRange(0, 1).Draw(t, "cr"))}}}
+	}
 	k := rapid.IntRange(0, 9).Draw(t, "bk")
 	if depth <= 0 && k >= 8 {
 		k = 0
@@ -90,8 +96,25 @@ func genBoolExpr(t *rapid.T, depth int) *E {
 		// operands of AND/OR never reference a possibly-missing field (the interplay of the
 		// type pre-check with short-circuit evaluation is C04's subject)
 		l, r := genBoolExprNoMissing(t, depth-1), genBoolExprNoMissing(t, depth-1)
+		// at most one count() per expression: whether two call sites of one function share
+		// their state is not documented (they do) and is not this property's subject
+		for hasCall(l) && hasCall(r) {
+			r = genBoolExprNoMissing(t, depth-1)
+		}
 		return &E{K: "bin", N: rapid.SampledFrom([]string{"AND", "OR"}).Draw(t, "lop"), A: []*E{l, r}}
 	}
+}
+
+func hasCall(e *E) bool {
+	if e.K == "call" && e.N == "count" {
+		return true
+	}
+	for _, a := range e.A {
+		if hasCall(a) {
+			return true
+		}
+	}
+	return false
 }
 
 func hasRef(e *E, name string) bool {
